@@ -58,6 +58,16 @@ def gen_case(rng):
     mop, cop = G.gen_class_with_method(rng, 40, module=rng.choice(['m', 'k']))
     ops += [mop, cop]
     regs_b = regs + [mop]
+    if rng.random() < 0.5:
+      # the same class and method names in the other module: 'Class.method' alone is ambiguous
+      import copy
+      om = 'k' if mop['module'] == 'm' else 'm'
+      mop2, cop2 = copy.deepcopy(mop), copy.deepcopy(cop)
+      mop2.update(module=om, obj=60, _selector=f"{om}.{cop['name']}.{mop['name']}")
+      cop2.update(module=om, obj=61, methods=[f"{om}.{mop['name']}"], _method_ops=[mop2], _pymodule=om,
+                  _selector=f"{om}.{cop['name']}")
+      ops += [mop2, cop2]
+      regs_b = regs_b + [mop2]
   else:
     regs_b = regs
   scopes = ['', 'a', 'A', 'a/b', 'a/B', 'b']
